@@ -80,6 +80,7 @@ func (g *tgen) Tree(depth int) amf0.Amf0 {
 		return g.Object(depth)
 	case 8:
 		o := amf0.NewEcmaArray()
+		lastContainers = append(lastContainers, func(k string, v amf0.Amf0) { o.Set(k, v) })
 		n := g.n(4)
 		for i := 0; i < n; i++ {
 			o.Set(g.key(i), g.Tree(depth+1))
@@ -105,8 +106,16 @@ func (g *tgen) key(i int) string {
 	return keyAlpha[g.n(len(keyAlpha))] + fmt.Sprint(i)
 }
 
+// Containers created while the last packet was built (objects and ECMA arrays,
+// outermost first): handles for updating a value tree in place later on.
+var lastContainers []func(key string, v amf0.Amf0)
+
+// LastContainers returns setters of the keyed containers of the packet BuildPacket made last.
+func LastContainers() []func(key string, v amf0.Amf0) { return lastContainers }
+
 func (g *tgen) Object(depth int) *amf0.Object {
 	o := amf0.NewObject()
+	lastContainers = append(lastContainers, func(k string, v amf0.Amf0) { o.Set(k, v) })
 	n := g.n(5)
 	for i := 0; i < n; i++ {
 		o.Set(g.key(i), g.Tree(depth+1))
@@ -140,6 +149,7 @@ var PacketKinds = []string{"connect", "connectRes", "createStream", "createStrea
 // has on the sending side; wire is the Go type name the protocol defines for it
 // on the receiving side (for a _result: decided by the transaction model).
 func BuildPacket(op kernel.Op) (pkt rtmp.Packet, kind string) {
+	lastContainers = nil
 	switch op.K {
 	case "connect":
 		p := rtmp.NewConnectAppPacket()
